@@ -569,11 +569,11 @@ def run(ctx):
         raw, _ = reply(b"application/json", body)
         kk_cases.append({"id": len(kk_cases), "op": "kk", "n": len(kk_cases), "replies": [{"reply_b64": b64(raw), "pieces": []}],
                          "default_reply": {"reply_b64": b64(reply(b"application/json", b"not json")[0]), "pieces": []},
-                         "want_polls": 2, "max_ms": 3500, "interval_ms": 50})
+                         "want_polls": 2, "max_ms": 20000, "interval_ms": 50})
     # S6: state known, notified, wall-clock time passes while the keeper awaits its actors
     kk_cases.append({"id": len(kk_cases), "op": "kk", "n": len(kk_cases), "replies": [],
                      "default_reply": {"reply_b64": b64(reply(b"application/json", b"not json")[0]), "pieces": []},
-                     "state": "wireserver", "notify": True, "block_ms": 8, "interval_ms": 2, "want_polls": 3, "max_ms": 8000})
+                     "state": "wireserver", "notify": True, "block_ms": 8, "interval_ms": 2, "want_polls": 3, "max_ms": 40000})
     ctx.log("key keeper leg")
     kres = run_driver(ctx, drv, kk_cases[:2]) + run_driver(ctx, drv, kk_cases[2:], env={"C13_THREADS": "0"})
     for c, r in zip(kk_cases, kres):
